@@ -45,10 +45,14 @@ def _work(job):
     from . import davgen, davreplay, storedriver
     kind = job["kind"]
     try:
-        if kind == "random":
-            tr, conc = davgen.run_random_session(job["seed"], davgen.profile(job["profile"]),
+        if kind in ("random", "fault"):
+            prof = davgen.profile(job["profile"])
+            if kind == "fault":
+                prof["fault"] = 0.3
+                prof["lock"] = 0
+            tr, conc = davgen.run_random_session(job["seed"], prof,
                                                  frontend=job["cfg"][0], prefix=job["cfg"][1],
-                                                 backend=job["cfg"][2])
+                                                 backend=job["cfg"][2], audit_git=(kind != "fault"))
         elif kind == "model":
             tr, conc = davreplay.replay_behaviour(job["behaviour"], job["seed"],
                                                   frontend=job["cfg"][0], prefix=job["cfg"][1],
@@ -144,6 +148,12 @@ def run(prop, tier, seed, replay=None):
             tid += 1
             jobs.append({"kind": "random", "seed": rng.randrange(1 << 30), "profile": prop,
                          "cfg": cfg, "tid": tid})
+    # fault sequences: writes interrupted by an injected ENOSPC (served state only is judged)
+    if prop in ("C01", "C02", "C08"):
+        for k in range(10 if quick else 100):
+            tid += 1
+            jobs.append({"kind": "fault", "seed": rng.randrange(1 << 30), "profile": prop,
+                         "cfg": HTTP_CONFIGS[k % 2 * 4], "tid": tid})
     # spec -> code: simulated behaviours of the model
     nsim = 24 if quick else 300
     behs, simres = tlc.simulate_behaviours("DavMC", "DavMC_sim.cfg", nsim, 22 if quick else 40,
@@ -268,9 +278,13 @@ def run_replay(prop, path, rep, devs):
 def _work_replay(job, r):
     from . import davgen, davreplay, storedriver
     logging.disable(logging.CRITICAL)
-    if job.get("kind") == "random":
-        return davgen.run_random_session(job["seed"], davgen.profile(job["profile"]),
-                                         frontend=job["cfg"][0], prefix=job["cfg"][1], backend=job["cfg"][2])
+    if job.get("kind") in ("random", "fault"):
+        prof = davgen.profile(job["profile"])
+        if job["kind"] == "fault":
+            prof["fault"] = 0.3
+            prof["lock"] = 0
+        return davgen.run_random_session(job["seed"], prof, frontend=job["cfg"][0], prefix=job["cfg"][1],
+                                         backend=job["cfg"][2], audit_git=(job["kind"] != "fault"))
     if job.get("kind") == "store":
         return storedriver.run_store_session(job["seed"], job["store"], job["profile"])
     if job.get("kind") == "model":
